@@ -1325,6 +1325,29 @@ impl ObjectFile {
     }
 }
 
+#[cfg(endorpersand_lc3_ensemble_verif)]
+impl ObjectFile {
+    /// Verification hook: the blocks of this object file (start address, words), in address order.
+    pub fn verif_blocks(&self) -> Vec<(u16, Vec<Option<u16>>)> {
+        self.block_map.iter().map(|(&a, b)| (a, b.clone())).collect()
+    }
+}
+#[cfg(endorpersand_lc3_ensemble_verif)]
+impl SymbolTable {
+    /// Verification hook: every label with its address, source offset and external flag.
+    pub fn verif_labels(&self) -> Vec<(String, u16, usize, bool)> {
+        self.label_map.iter().map(|(k, d)| (k.clone(), d.addr, d.src_start, d.external)).collect()
+    }
+    /// Verification hook: the relocation entries (address, label).
+    pub fn verif_relocs(&self) -> Vec<(u16, String)> {
+        self.rel_map.iter().map(|(&a, l)| (a, l.clone())).collect()
+    }
+    /// Verification hook: the line map as (first line, addresses) runs, if debug symbols exist.
+    pub fn verif_line_blocks(&self) -> Option<Vec<(usize, Vec<u16>)>> {
+        self.debug_symbols.as_ref().map(|d| d.line_map.block_iter().map(|(i, w)| (i, w.to_vec())).collect())
+    }
+}
+
 /// Used for [`std::fmt::Debug`] purposes.
 #[repr(transparent)]
 struct Addr(u16);
